@@ -170,9 +170,19 @@ def replay_gate(eng, vc, spec, consts, int_names, base_query, max_models=6, neut
                 fr = model_inputs(m2, consts)
                 enc, val = concretise(fr, set(int_names) | {n for n, v in zip(real_names, cand) if isinstance(v, int)})
                 outs = [decode_out(o) for o in run_concrete(spec, enc)]
+                vc.enc = enc
                 why = vc.judge(val, outs)
                 if why:
-                    return "violation", {"attributed": None, "inputs": enc, "inputs_rational": {k: str(v) for k, v in fr.items()},
+                    attributed = None
+                    for fid in neutralisers:
+                        try:
+                            outs2 = [decode_out(o) for o in run_concrete(spec, enc, neutralise=[fid])]
+                            if not vc.judge(val, outs2):
+                                attributed = fid
+                                break
+                        except Exception:  # noqa
+                            pass
+                    return "violation", {"attributed": attributed, "inputs": enc, "inputs_rational": {k: str(v) for k, v in fr.items()},
                                          "observed": [{k: v for k, v in o.items() if k != "mp"} for o in outs], "why": why, "attempts": 0}
             except Exception:  # noqa
                 pass
@@ -477,12 +487,13 @@ def main(prop_name, tier, seed, budget_s=None, procs=None, only=None):
     jobs = prop.jobs(tier, seed)
     if only:
         jobs = [j for j in jobs if only in j.get("id", "")]
+    jobs = [j for j in jobs if j.get("twin")] + [j for j in jobs if not j.get("twin")]      # vacuity guards first (a time budget must not skip them)
     opts = dict(getattr(prop, "OPTS", {}).get(tier, {}))
     opts.setdefault("timeout_ms", 10000 if tier == "quick" else 30000)
     opts.setdefault("max_paths", 2000)
     opts.setdefault("job_budget_s", 40 if tier == "quick" else 300)
     opts.setdefault("cvc5_sample", 20)        # every 20th final verification condition is re-decided by cvc5
-    budget_s = budget_s or opts.get("budget_s") or (240 if tier == "quick" else 1500)
+    budget_s = budget_s or opts.get("budget_s") or (300 if tier == "quick" else 2400)
     procs = procs or int(os.environ.get("VERIF_PROCS", "16"))
     hard_s = opts.get("job_hard_s") or (opts["job_budget_s"] * 2 + 30)
     if os.environ.get("VERIF_POOL") == "mp":
